@@ -198,7 +198,7 @@ def run_child(ctx, sc, base):
     env["PYTHONPATH"] = os.pathsep.join([str(common.VERIF / "harness"), str(common.REPO / "src")] + ([env["PYTHONPATH"]] if env.get("PYTHONPATH") else []))
     try:
         p = subprocess.run([sys.executable, "-m", "xv.props.c16x_effects", "child", str(base / "spec.json")], capture_output=True,
-                           text=True, timeout=120, env=env, cwd=str(base))
+                           text=True, timeout=400, env=env, cwd=str(base))
         rc, err = p.returncode, p.stderr[-400:]
     except subprocess.TimeoutExpired:
         rc, err = "timeout", ""
@@ -262,8 +262,8 @@ def correspond_effects(ctx):
         case = {"effect_kill": {"phase": sc["phase"], "idx": sc["idx"], "eff": sc["eff"], "hit": sc["hit"], "lines": sc["lines"]}}
         key = f"{sc['phase']}:{sc['eff']}"
         if info is None or observed[k] is None:
-            ctx.monitor_fail(f"effect-kill-stuck:{key}", f"the traced run neither died nor ended (rc={rc}) {err[-200:]}", case)
-            continue
+            # the child did not get through its prelude, or ran into the harness's own time limit (a loaded machine): not a verdict
+            raise RuntimeError(f"C16 effect kill point {key}: child process rc={rc} without a result {err[-300:]}")
         obs, obs0 = observed[k], info["obs0"]
         ctx.case(case, sc["eff"] != "other")
         ctx.count("effect_kill", key)
